@@ -116,7 +116,10 @@ fn gen(seed: u64, idx: u64, t: Tier) -> J {
 	for i in 0..n {
 		docs.push(pool[i % pool.len()].clone());
 	}
-	let stream = gen::build_stream(&docs, f, &mut r, false);
+	// A third of the streams use every separator the format allows (YAML comments,
+	// '...' terminators, a bare first document; JSON blanks and CRLF).
+	let varied = r.chance(1, 3);
+	let stream = gen::build_stream(&docs, f, &mut r, varied);
 	let mut from = if r.chance(1, 2) { Some(f) } else { None };
 	if from.is_none() {
 		let head_end = stream.docs.get(3).map_or(stream.bytes.len(), |d| d.1);
@@ -306,6 +309,7 @@ fn eval(case: &J) -> Eval {
 		1,
 	);
 	ev.count("detect", u64::from(sc.calls[0].from.is_none()));
+	ev.count("detect_first_doc_over_8k", u64::from(sc.calls[0].from.is_none() && docs.first().is_some_and(|d| d.1 - d.0 > 8192)));
 	ev.count("big_docs", u64::from(max_doc >= 8192));
 	ev.nontrivial = n >= 10 && o.calls[0].data_reads as usize >= n / 2;
 	ev.key = key_of(&sc, sched_hash(&sc.calls[0].sched));
